@@ -80,6 +80,17 @@ func genCfg(rng *hx.Rng, prop string, meta *hx.Meta) cfg {
 			c.QCap = 0 // synchronous channel (Go oracles only; the Coq model is the async channel)
 		}
 	}
+	if c.QCap == 0 {
+		// synchronous channels also see truly empty payloads (nil / zero-length): same lock, write, flush as any other
+		for w := range c.Writers {
+			for k := range c.Writers[w].Calls {
+				if cs := &c.Writers[w].Calls[k]; (cs.Kind == 0 || cs.Kind == 4) && rng.Chance(15) {
+					cs.Empty = true
+					meta.Count("payload", "truly empty")
+				}
+			}
+		}
+	}
 	meta.Count("qcap", fmt.Sprint(c.QCap))
 	meta.Count("mode", map[bool]string{true: "blocking", false: "non-blocking"}[c.Until])
 	meta.Count("writers", fmt.Sprint(len(c.Writers)))
